@@ -139,7 +139,7 @@ def _unescape_tla(s):
 
 def run_tlc(module, cfg, files=None, workers=None, timeout=600, simulate=None, depth=None,
             tlc_seed=None, extra=None, data=None, want_vecs=True, deque=False, coverage=False,
-            keep=False, xss="256m", heap=None):
+            keep=False, xss="256m", heap=None, gc="serial"):
     """Run TLC on /verif/spec/<module>.tla with config <cfg> in a scratch copy.
     data: dict filename -> text (trace files etc) written next to the spec.
     Returns TLCResult. Raises Broken on time-out or a TLC crash that is not a property verdict."""
@@ -156,7 +156,7 @@ def run_tlc(module, cfg, files=None, workers=None, timeout=600, simulate=None, d
         w = str(workers if workers else min(16, os.cpu_count() or 4))
         # measured here: SerialGC with a small heap is 3-4x faster (and far lighter on the kernel) than the
         # tlc wrapper's ParallelGC with a 25%-of-RAM heap for the many short runs the checks make
-        cmd = ["java", "-XX:+UseSerialGC", "-Xmx" + (heap or "3g"), "-Xss" + xss]
+        cmd = ["java", "-XX:+UseParallelGC" if gc == "parallel" else "-XX:+UseSerialGC", "-Xmx" + (heap or "3g"), "-Xss" + xss]
         if deque:
             cmd.append("-Dtlc2.tool.queue.IStateQueue=StateDeque")
         cmd += ["-cp", "/opt/veriftools/tla/tla2tools.jar:/opt/veriftools/tla/CommunityModules-deps.jar",
